@@ -1,7 +1,7 @@
 SPECIFICATION Spec
 CONSTANTS
   MaxLen = 5
-  Atoms = {"G1", "G2", "G3", "!i", "p", "*", ",", "{", "}", ";", ":", "@m", "(", ")", "f(", "[", "]", "s", "<!--", "-->"}
+  Atoms = {"G1", "G2", "G3", "B1", ">", "!i", "p", "*", ",", "{", "}", ";", ":", "@m", "(", ")", "f(", "[", "]", "s", "<!--", "-->"}
   Emit = TRUE
   EmitOneIn = 6
 INVARIANTS Inv_Syntax Inv_Stop Inv_Emit
